@@ -71,7 +71,7 @@ from contracts.moddb import PREFIX_TESTS as _PT
 for _f, _p in dict(is_gno_str='gno_str', is_xlmod_str='xlmod_str', is_resid_str='resid_str', is_psi_mod_str='psi_str', is_unimod_str='unimod_str').items():
     C[MD + _f] = dict(params={_p: 'str'}, returns='bool', pure=True, trusted=True,
                       bounded_by=('pure prefix test: proved against this same contract in contracts/moddb.py (C10)' if _f in _PT else
-                                  'prefix test OR membership in the vocabulary (id / name): bounded/C10.py'),
+                                  'prefix test OR membership in the vocabulary (id / name): proved against its definition in contracts/modresolve.py (C10)'),
                       ensures=([('prefix-test', 'result == (' + ' or '.join("iprefix(%s, '%s')" % (_p, x) for x in _PT[_f][1]) + ')')] if _f in _PT else []))
 for _v in ('gno', 'xlmod', 'resid', 'psi', 'unimod'):
     C[MD + 'parse_%s_mass' % _v] = dict(params=dict(mod_str='str', monoisotopic='bool', precision='Optional[int]'), returns='real', pure=True, trusted=True,
